@@ -1,10 +1,10 @@
 //! C08: drives the real register allocator of sway-core (through `sway_core::verif_hooks::regalloc`).
 //!
 //! Lines:
-//! * `alloc <ops> ;; K=<pool> live=<..> edges=<..> cops=<..> clive=<..> cedges=<..> status=<ok|err|panic>
+//! * `alloc <ops> ;; status=<ok|err|panic> K=<pool> stages=<ok|panic> live=<..> edges=<..> cops=<..> clive=<..> cedges=<..>
 //!   final=<ops> assign=<v=k,..> spilled=<rounds> dc=<0|1> src=<syn|harvest|corpus>`
 //!   every stage of `allocate_registers::try_color` on `<ops>` and the whole `allocate_registers`.
-//! * `slots <locals> <regs> ;; <v=off,..>`            the real `spill_offsets`
+//! * `slots <locals> <regs> ;; ok <v=off,..>`          the real `spill_offsets`
 //! * `assign <nodes> <edges> <stack> ;; ok <v=k,..> | err`   the real `assign_registers` on an arbitrary graph/stack
 //! * `vm <package> <test> ;; pass|fail|builderr`      generated high-pressure Sway functions run on the real VM
 //!
@@ -243,7 +243,13 @@ fn alloc_line(text: &str, src: &str) -> Option<String> {
     let canon = ops.text(false);
     let st = guarded(|| ra::stages(&ops));
     let al = guarded(|| ra::allocate(&ops));
-    let mut res = format!("K={}", ra::NUM_ALLOCATABLE_REGISTERS);
+    let mut res = String::new();
+    match &al {
+        Some(a) if a.status == "ok" => res += "status=ok",
+        Some(_) => res += "status=err",
+        None => res += "status=panic",
+    }
+    res += &format!(" K={}", ra::NUM_ALLOCATABLE_REGISTERS);
     match st {
         Some(s) => res += &format!(
             " stages=ok live={} edges={} cops={} clive={} cedges={}",
@@ -253,11 +259,10 @@ fn alloc_line(text: &str, src: &str) -> Option<String> {
     }
     match al {
         Some(a) if a.status == "ok" => res += &format!(
-            " status=ok final={} assign={} spilled={} dc={}",
+            " final={} assign={} spilled={} dc={}",
             a.final_ops, a.assign, a.spilled, a.defs_consistent as u8
         ),
-        Some(_) => res += " status=err",
-        None => res += " status=panic",
+        _ => {}
     }
     Some(format!("alloc {canon} ;; {res} src={src}"))
 }
@@ -353,8 +358,8 @@ fn main() {
                 let res = guarded(|| ra::spill_offsets(&regs, locals));
                 let rs = if regs.is_empty() { "-".into() } else { regs.iter().map(|k| format!("v{k}")).collect::<Vec<_>>().join(",") };
                 let txt = match res {
-                    Some(v) if v.is_empty() => "-".to_string(),
-                    Some(v) => v.iter().map(|(k, o)| format!("v{k}={o}")).collect::<Vec<_>>().join(","),
+                    Some(v) if v.is_empty() => "ok -".to_string(),
+                    Some(v) => format!("ok {}", v.iter().map(|(k, o)| format!("v{k}={o}")).collect::<Vec<_>>().join(",")),
                     None => "panic".into(),
                 };
                 writeln!(out, "slots {locals} {rs} ;; {txt}").unwrap();
